@@ -164,7 +164,7 @@ Lemma ev_apply_loop rem m : forall s, evs (apply_loop rem s m) = evs s.
 Proof.
   induction rem as [|r IH]; intros s; simpl.
   - destruct (get_m s m); auto. apply ev_finish_m.
-  - destruct (get_m s m) as [x|]; auto. destruct (m_bad x).
+  - destruct (get_m s m) as [x|]; auto. destruct (nth (m_idx x) (m_bad x) false).
     + now rewrite IH.
     + pose proof (ev_try_start s m x) as H1.
       destruct (try_start s m x) as [s' cont]. cbn [fst] in H1. destruct cont; auto.
